@@ -597,7 +597,18 @@ def run(ctx):
     ctx.assumptions = ["callers do not mutate package internals from outside the package"]
     w = World(ctx)
     om = OriginModel(ctx.sources)
+    from .shared_state import wrapper_memo_collisions
+    collide = wrapper_memo_collisions(w.model)
+    colliding = {f for _, fs in collide for f in fs}
+    for wm, fs in collide:
+        if any(f in w.reach for f in fs):
+            ctx.bad("C17.2", f"memo of the decorator {wm.decorator} is shared by {', '.join(f.split('.', 2)[-1] for f in fs)} and keyed by `{wm.key_text}` only", f"{wm.rel}:{wm.line}",
+                    f"the results of these functions are stored in the same {'per-instance attribute' if wm.storage[0] == 'instance' else 'module-level container'} "
+                    f"{wm.storage[1]!r} under a key that does not say which function was called: whichever is called first with given arguments "
+                    f"answers for the others afterwards", owners=sorted(fs), object=f"<memo of {wm.decorator}>")
     for f, d in w.unknown_decorators:
+        if f in colliding:
+            continue
         ctx.unk("C17.0", f"{f} is wrapped by the decorator @{d}", f"{w.rel_of(f)}:{w.model.funcs[f].node.lineno}",
                 "the effects of the wrapper are not modelled; obligations that involve this function are not decided")
     check_shared_writes(ctx, w, om)
